@@ -338,6 +338,26 @@ func srvAlphabet(cfg *SrvCfg, full bool) []CSym {
 			a = append(a, s)
 		}
 	}
+	// a reply that is right in everything but its state, which lags behind the stage the server is at
+	for _, st := range []string{"new", "negotiating"} {
+		lag := ses(st, "sid")
+		lag.Scheme, lag.Cred, lag.ForceAuth = cfg.Schemes[0], "c1", true
+		if lag.Scheme == "guest" || lag.Scheme == "transport" {
+			lag.Cred = ""
+		}
+		a = append(a, lag)
+	}
+	lagc := ses("new", "sid")
+	lagc.Comp, lagc.Enc = "none", "none"
+	a = append(a, lagc)
+	// the same good credentials with a delegation node that names somebody else
+	pps := ses("authenticating", "sid")
+	pps.Scheme, pps.Cred = cfg.Schemes[0], "c1"
+	if pps.Scheme == "guest" || pps.Scheme == "transport" {
+		pps.Cred = ""
+	}
+	pps.PP = &NodeSpec{Name: "mallory", Domain: "cli.example", Instance: "home"}
+	a = append(a, pps)
 	u := ses("authenticating", "sid")
 	u.Scheme, u.Cred = unofferedScheme(cfg.Schemes), "c1"
 	if u.Scheme == "guest" || u.Scheme == "transport" {
@@ -477,6 +497,12 @@ func genSrvCase(rt *rapid.T, modes []string) *SrvCase {
 		}
 		if s.Kind == "session" && rapid.IntRange(0, 3).Draw(rt, "fromvar") == 0 {
 			s.From = GenNode().Draw(rt, "from")
+		}
+		if s.Kind == "session" && rapid.IntRange(0, 4).Draw(rt, "ppvar") == 0 {
+			s.PP = &NodeSpec{Name: "mallory", Domain: "cli.example", Instance: "home"}
+			if rapid.Bool().Draw(rt, "ppgen") {
+				s.PP = GenNode().Draw(rt, "pp")
+			}
 		}
 		c.Script = append(c.Script, s)
 		if s.Kind == "session" && s.State == "negotiating" && s.Enc == "tls" && s.DoTLS && rapid.IntRange(0, 2).Draw(rt, "glue") == 0 {
